@@ -35,6 +35,9 @@ type txT struct {
 	NonceDelta int    // 0 current, +k future, -1 stale
 	Raw        []byte // pre-built bytes (replays, forgeries); overrides everything else
 	Mutate     func(tx []byte) []byte
+	// Dyn builds method and body from the state the block is built on (Signer must be the same as the
+	// static one; gas, fee and nonce settings of the static template win).
+	Dyn func(b *bundle) txT
 }
 
 // letter is one block.
@@ -241,6 +244,14 @@ func (b *bundle) buildBlock(l *letter) *chain.Block {
 		if t.Raw != nil {
 			blk.Txs = append(blk.Txs, t.Raw)
 			continue
+		}
+		if t.Dyn != nil {
+			d := t.Dyn(b)
+			d.Gas, d.ExactGas, d.NonceDelta, d.Mutate, d.NoFee = t.Gas, t.ExactGas, t.NonceDelta, t.Mutate, t.NoFee
+			if t.FeeAmt != 0 {
+				d.FeeAmt = t.FeeAmt
+			}
+			t = d
 		}
 		addr := chain.Addr(t.Signer)
 		nonce := ref.Nonce(addr) + used[addr]
